@@ -32,6 +32,7 @@ ASSUMPTIONS = ["temporary files of the deferred writer live in the temp director
                "(the harness points TMPDIR elsewhere and hashes only the output directory)",
                "the deferred-writer singleton is cleared before each case; a later call in the same process is "
                "outside this property", "gen_seq: the json dump itself is the writing stage"]
+RULE += (" gen_params runs whose applied link carries an [ info ]/[ warning ]/[ error ] message must write all the same; a failure while the file is composed is followed by a successful gen_seq run in the same process, which must leave the failed run's directory unchanged.")
 BUDGET = {"quick": (16, 0), "thorough": (16, 0)}
 EXHAUSTIVE = True
 
